@@ -301,8 +301,31 @@ pub fn run_history(cfg: &TableConfig, ops: &[TOp]) -> CaseReport {
     let mut pre = observe(&t);
     'outer: for op in ops {
         for e in expand(op) {
+            let t_before = std::time::Instant::now();
             let (key, ret) = apply(&mut t, &cfg.local, &e);
             let post = observe(&t);
+            // P1 (deadline form): a node that became pending in this step waits for ITS OWN full
+            // timeout, counted from this step; and the deadline of a waiting node is never brought
+            // forward (except by the harness's explicit expiry op)
+            let timeout = if cfg.pending_zero { std::time::Duration::ZERO } else { std::time::Duration::from_secs(3600) };
+            for (i, (pb, qb)) in pre.iter().zip(post.iter()).enumerate() {
+                let (Some(q), Some(dl)) = (&qb.pending, qb.pending_deadline) else { continue };
+                let same = pb.pending.as_ref().map(|p| p.id == q.id).unwrap_or(false);
+                if !same {
+                    if dl < t_before + timeout {
+                        rep.fail(
+                            "P1/pending-deadline-earlier-than-its-own-timeout",
+                            format!("bucket {i}: node {} became pending in this step (op {e:?}) but is due {:?} before a full pending timeout from now has passed", ids::hex_id(&q.id), (t_before + timeout) - dl),
+                        );
+                        break 'outer;
+                    }
+                } else if let Some(old) = pb.pending_deadline {
+                    if dl < old && !matches!(e, TOp::ExpirePending { .. }) {
+                        rep.fail("P1/pending-deadline-brought-forward", format!("bucket {i}: the deadline of waiting node {} moved {:?} earlier (op {e:?})", ids::hex_id(&q.id), old - dl));
+                        break 'outer;
+                    }
+                }
+            }
             if let Some((sig, detail)) = chk.check(&pre, &post, &e, key, &ret) {
                 if sig.starts_with("HARNESS/") {
                     rep.fail(format!("HARNESS-PANIC/{sig}"), detail);
